@@ -383,7 +383,7 @@ fn run_diff(out: &mut Out, rng: &mut Rng, thorough: bool) {
 			);
 		}
 		// windows
-		let nw = if thorough { 12000 } else { 1500 };
+		let nw = if thorough { 12000 } else { 5000 };
 		let w0 = global::initial_graph_weight();
 		for i in 0..nw {
 			let w = WinGen::window(rng, w0, &mut stats);
@@ -859,7 +859,7 @@ fn run_chain(out: &mut Out, rng: &mut Rng, thorough: bool) {
 	};
 	let builder = open_chain(&format!("{}/builder", work), &genesis);
 	let subject = open_chain(&format!("{}/subject", work), &genesis);
-	let n_blocks: u32 = if thorough { 75 } else { 17 };
+	let n_blocks: u32 = if thorough { 75 } else { 26 };
 	// heights at which the full mutation set is delivered (every era; all of them in thorough)
 	let full_every = if thorough { 1 } else { 1 };
 	for n in 1..=n_blocks {
